@@ -126,6 +126,12 @@ def cases(tier, seed):
     d.update({"fields": ["temp", "density", "Z"], "layout": [scope.scattered_layout(27, 5), scope.scattered_layout(20, 3)], "payload": "coded",
               "time": times[2], "seed": seed})
     out.append({"desc": d, "full": False, "maxlist": 2, "boxes_only": True, "devlevel": 0, "w": 40, "many": True})
+    # 131 + 65 binary files on a level (one box per file): more files than any batching threshold
+    m = scope.many_file_mesh()
+    d = dict(m)
+    d.update(geos[3][0])
+    d.update({"fields": ["temp", "density", "Z"], "layout": scope.many_file_layouts(), "payload": "coded", "time": times[1], "seed": seed})
+    out.append({"desc": d, "full": False, "maxlist": 2, "boxes_only": True, "devlevel": None, "w": 60, "many_files": True})
     # seven levels refined towards the far corner, twelve fields: FAB header lines longer than 100 bytes
     m = scope.deep_corner_mesh()
     for vi, lays in enumerate(([None] * 7, [scope.layouts(2, 'idrev')[-1]] * 7)):
